@@ -145,7 +145,7 @@ def _replay_chunk(args):
     return {"n": n, "bad": bad, "kinds": kinds, "sample": sample}
 
 
-def replay_file(out_path: str, ng: int, nproc: int):
+def replay_file(out_path: str, ng: int, nproc: int, pool=None):
     """Replay every record of a TLC output file. Returns stats dict."""
     lines = []
     with open(out_path, "r", errors="replace") as f:
@@ -157,9 +157,11 @@ def replay_file(out_path: str, ng: int, nproc: int):
     step = max(1, len(lines) // (nproc * 4) + 1)
     chunks = [(lines[i:i + step], ng) for i in range(0, len(lines), step)]
     tot = {"n": 0, "bad": [], "kinds": {}, "sample": None, "unparsed": 0}
-    ctx = mp.get_context("fork")
-    with ctx.Pool(nproc) as pool:
-        for r in pool.imap_unordered(_replay_chunk, chunks):
+    own = pool is None
+    if own:
+        pool = mp.get_context("fork").Pool(nproc)
+    try:
+        for r in pool.imap(_replay_chunk, chunks):
             tot["unparsed"] += r.get("unparsed", 0)
             tot["n"] += r.get("n", 0)
             tot["bad"] += r.get("bad", [])
@@ -167,6 +169,9 @@ def replay_file(out_path: str, ng: int, nproc: int):
                 tot["kinds"][k] = tot["kinds"].get(k, 0) + v
             if tot["sample"] is None:
                 tot["sample"] = r.get("sample")
+    finally:
+        if own:
+            pool.terminate()
     return tot
 
 
